@@ -89,6 +89,28 @@ class C01(Prop):
                     add(1, S.soft(sb, m), {"kind": "lich", "calls": [(1, lich6)], "result": 3, "cost": "max", "mode": 0})
                 else:
                     add(1, S.soft(sb, m), {"kind": "lich_last", "calls": [(1, lich6), (0, list(lsf))], "result": 1, "cost": 0, "mode": 1})
+            # late entry after an interrupted one: 1-5 fragments of another transmission A are left behind, the application calls
+            # reset() (carrier lost), then transmission B is entered late: all six fragments, then B's stream payloads
+            lsfA = g.rand_lsf(0x0005); lsfB = g.rand_lsf(0x0005)
+            keep = rng.sample(range(6), rng.randrange(1, 6))
+            for k, n in enumerate(keep):
+                sb = S.stream_frame_bits(lsfA, n, k, bytes(rng.randrange(256) for _ in range(16)))
+                add(1, S.soft(sb, 7), None)
+            lines.append("dec_reset"); exp.append(None)
+            order = list(range(6)); rng.shuffle(order)
+            seen = set(keep)
+            for k, n in enumerate(order):
+                sb = S.stream_frame_bits(lsfB, n, k, bytes(rng.randrange(256) for _ in range(16)))
+                lich6 = list(lsfB[5 * n:5 * n + 5]) + [n << 5]
+                seen.add(n)
+                # the collection mask still holds A's positions after reset(): the set completes as soon as A's and B's positions cover 0..5;
+                # a mixed buffer fails the CRC (cost 128) and keeps collecting; with all six of B stored the LSF must be reported
+                if k == 5:
+                    add(1, S.soft(sb, 7), {"kind": "lich_last_after_partial", "calls": [(1, lich6), (0, list(lsfB))], "result": 1, "cost": 0, "mode": 1})
+                else:
+                    add(1, S.soft(sb, 7), {"kind": "lich_after_partial", "calls": [(1, lich6)], "result": 3, "cost": None, "mode": 0})
+            fn = rng.randrange(0x8000); pl = bytes(rng.randrange(256) for _ in range(16))
+            add(1, S.soft(S.stream_frame_bits(lsfB, 0, fn, pl), 7), {"kind": "stream_after_late_entry", "calls": [(2, list(fn.to_bytes(2, "big") + pl))], "result": 1, "cost": 0, "mode": 1})
             # packet: needs a packet LSF first
             for typ, ftype in ((0x0002, 3), (0x0004, 4)):
                 add(0, S.soft(S.lsf_frame_bits(g.rand_lsf(typ)), 7), None)
@@ -168,31 +190,34 @@ class C01(Prop):
         g = decgen.Gen(rng)
         src, dst = g.rand_call(), g.rand_call()
         frames = 3 if ctx.tier == "quick" else 12
-        ln = f"modrun {rng.randrange(1, 10**6)} 0 0 1 {frames} 7 {len(src)} " + " ".join(str(ord(c)) for c in src) + f" {len(dst)} " + " ".join(str(ord(c)) for c in dst)
+        keyups = 2          # the second key-up of one modulator run re-uses its CRC engine, frame counter and buffers
+        ln = f"modrun {rng.randrange(1, 10**6)} 0 0 {keyups} {frames} 7 {len(src)} " + " ".join(str(ord(c)) for c in src) + f" {len(dst)} " + " ".join(str(ord(c)) for c in dst)
         o = ctx.run_impl(mod, [ln], "modulator", timeout=600)[0]
         if " | " not in o:
             return
         data = bytes(int(x) for x in o.split(" | ")[1].split())
-        if len(data) != 96 + 48 * (frames + 1):
-            ctx.violate("dec-clean:M17Modulator:length", f"M17Modulator emitted {len(data)} bytes for {frames} frames", {"stream": "modulator", "ops": [ln]})
+        seg = 96 + 48 * (frames + 1)
+        if len(data) != keyups * seg:
+            ctx.violate("dec-clean:M17Modulator:length", f"M17Modulator emitted {len(data)} bytes for {keyups} key-ups of {frames} frames", {"stream": "modulator", "ops": [ln]})
             return
         lsf = list(S.make_lsf(dst, src, 0x0005, bytes(14), 0))
-        dl, exp = ["dec_new"], [None]
-        m = rng.randrange(1, 8)
-        dl.append("dec_frame 0 1 " + " ".join(map(str, S.soft(S.bits_of(data[50:96]), m))))
-        exp.append({"kind": "lsf", "calls": [(0, lsf)], "result": 1, "cost": rdiv(368 * (7 - m), 7), "mode": 1})
-        for f in range(frames + 1):
-            fr = data[96 + 48 * f:96 + 48 * (f + 1)]
+        dl, exp, fidx = ["dec_new"], [None], [None]
+        for ku in range(keyups):
+            base = ku * seg
             m = rng.randrange(1, 8)
-            dl.append("dec_frame 1 1 " + " ".join(map(str, S.soft(S.bits_of(fr[2:]), m))))
-            exp.append({"kind": "stream", "calls": None, "result": 1, "cost": rdiv(272 * (7 - m), 7), "mode": 1})
+            dl.append("dec_frame 0 1 " + " ".join(map(str, S.soft(S.bits_of(data[base + 50:base + 96]), m))))
+            exp.append({"kind": "lsf", "calls": [(0, lsf)], "result": 1, "cost": rdiv(368 * (7 - m), 7), "mode": 1}); fidx.append(None)
+            for f in range(frames + 1):
+                fr = data[base + 96 + 48 * f:base + 96 + 48 * (f + 1)]
+                m = rng.randrange(1, 8)
+                dl.append("dec_frame 1 1 " + " ".join(map(str, S.soft(S.bits_of(fr[2:]), m))))
+                exp.append({"kind": "stream", "calls": None, "result": 1, "cost": rdiv(272 * (7 - m), 7), "mode": 1}); fidx.append(f)
         impl = ctx.run_impl(exe, dl, "dec-txrx")
         for i, (e, a) in enumerate(zip(exp, impl)):
             if e and e["calls"] is None:
                 r = decgen.parse_reply(a)
                 if r and r["calls"]:
-                    fnb = r["calls"][0]["bytes"][:2]
-                    want_fn = (i - 2) | (0x8000 if i - 2 == frames else 0)
+                    want_fn = fidx[i] | (0x8000 if fidx[i] == frames else 0)
                     e["calls"] = [(2, [want_fn >> 8, want_fn & 0xFF] + r["calls"][0]["bytes"][2:])]
                 else:
                     e["calls"] = [(2, [])]
